@@ -136,6 +136,7 @@ type Enc struct {
 	instance     string
 	intValued    map[string]bool
 	shadow       map[string][2]string
+	ghostModel   [][2]string
 	curTag       int
 	ntag         int
 	curAllowed   map[int]bool
@@ -561,7 +562,7 @@ func (p *Prog) instrEffects(ins ssa.Instruction, es *effSet, stack map[*ssa.Func
 func (p *Prog) callEffects(c *ssa.CallCommon, stack map[*ssa.Function]bool) *effSet {
 	es := &effSet{regs: map[string]bool{}}
 	if c.IsInvoke() {
-		name := "(" + c.Value.Type().String() + ")." + c.Method.Name()
+		name := invokeName(c)
 		if sp, ok := p.specs.Funcs[name]; ok && sp.HasMod {
 			for _, m := range sp.Modifies {
 				if m == "all" {
